@@ -225,6 +225,16 @@ theorem branch_sum (d b : ℕ) (X Y : ℝ) (hb : b < 12) (hX0 : 0 ≤ X) (hX8 : 
       linarith
     · omega
 
+/-- depths above 29 are rejected (`get_zoc` panics), for every numeric instance and both configurations: the bound
+    `d ≤ 29` of the theorems on `hashBack` is the whole domain of `hash_with_dxdy` -/
+theorem hashBack_deep {α : Type} [Num α] (cfg : Cfg) (d : ℕ) (hd : d > 29) (xy : α × α) : hashBack cfg d xy = none := by
+  have hz : Layer.zoc cfg d = none := by
+    unfold Layer.zoc getZocBmi getZoc getZocFrom
+    simp [hd]
+  unfold hashBack
+  simp only [hz]
+  split <;> rfl
+
 /-! ## examples -/
 
 /-- depth 2, cell 73 = `(4, 1, 2)` (centre abscissa `−1/4`, reduced to `7.75`): the round trip holds -/
@@ -255,5 +265,6 @@ example : ∃ hash, hashBack (α := ℝ) {} 3 (2 * ((2 : ℕ) : ℝ) + 1, 2) = s
 #print axioms hash_back_center
 #print axioms hash_center_plane
 #print axioms branch_sum
+#print axioms hashBack_deep
 
 end Hpx.CellReal
